@@ -18,6 +18,16 @@ def oracle(env, ev):
     if not ev:
         return None
     if ev[0] == 'scan':
+        timed = set(rec['h']._worker_pid for rec in env.jobs
+                    if rec['h'] is not None and rec['kind'] == 'apply' and
+                    rec.get('timed_out_at') == now)
+        for sender, pid, sig in getattr(env, 'scan_kills', ()):
+            if sig in (int(signal.SIGTERM), int(signal.SIGKILL)) and \
+                    pid not in timed:
+                return ('the scan sent signal %d to worker %r although no '
+                        'job of that worker was timed out in this scan '
+                        '(jobs: %r)' % (sig, pid, [env.outcome(r)
+                                                   for r in env.jobs]))
         for j, rec in enumerate(env.jobs):
             h = rec['h']
             if h is None or rec['kind'] != 'apply' or rec['discarded']:
@@ -90,6 +100,9 @@ def configs(tier):
             ('pool-limit/1proc', 1, [ap, ap], dict(base, timeout=2.0)),
             ('job-beats-pool', 2, [ap_h1, ap_h3, ap], dict(base, timeout=2.0)),
             ('soft+hard', 2, [ap_sh, ap], dict(base, enable_timeouts=True)),
+            ('callback-pumps-results', 2,
+             [dict(ap_h1, pump_on_timeout=True), ap_h1],
+             dict(base, enable_timeouts=True)),
             ('map-shares-pool', 2, [mp, ap_h1], dict(base, timeout=2.0)),
             ('imap-shares-pool', 2, [im, ap], dict(base, timeout=2.0,
                                                     soft_timeout=1.0))):
